@@ -52,6 +52,34 @@ func c06Scenarios() []*core.Scenario {
 	}
 }
 
+// c13Scenarios: readers pinning an old state delay, but do not prevent, the
+// removal of truncated segments' files.
+func c13Scenarios() []*core.Scenario {
+	seg := core.Config{SegSize: 128}
+	six := []core.Op{a(1, 0, 4), a(2, 0, 4), a(3, 0, 4), a(4, 0, 4), a(5, 0, 4), a(6, 0, 4), a(7, 0, 4)}
+	return []*core.Scenario{
+		{Name: "head truncation deleting two segments || reader inside the deleted range and in the kept one", Cfg: seg, Prop: "C13", Setup: six,
+			Threads: []core.ThreadSpec{{Name: "writer", Ops: []core.Op{{K: "D", Min: 1, Max: 6}}}, {Name: "reader", Ops: []core.Op{{K: "GL", Idx: 2}, {K: "GL", Idx: 7}}}}},
+		{Name: "tail truncation deleting the tail and a sealed segment, then append || reader", Cfg: seg, Prop: "C13", Setup: six,
+			Threads: []core.ThreadSpec{{Name: "writer", Ops: []core.Op{{K: "D", Min: 3, Max: 7}, a(3, 1, 4)}}, {Name: "reader", Ops: []core.Op{{K: "GL", Idx: 5}, {K: "GL", Idx: 1}}}}},
+		{Name: "two readers pinning the state across a head truncation", Cfg: seg, Prop: "C13", Setup: six,
+			Threads: []core.ThreadSpec{{Name: "writer", Ops: []core.Op{{K: "D", Min: 1, Max: 3}}}, {Name: "reader1", Ops: []core.Op{{K: "GL", Idx: 1}}}, {Name: "reader2", Ops: []core.Op{{K: "GL", Idx: 3}, {K: "FI"}}}}},
+	}
+}
+
+// c08Scenarios: stable operations concurrent with log mutations.
+func c08Scenarios() []*core.Scenario {
+	seg := core.Config{SegSize: 128}
+	return []*core.Scenario{
+		{Name: "Set, Get, SetUint64, GetUint64 || sealing append + rotation, head truncation", Cfg: seg, Prop: "C08", Setup: []core.Op{a(1, 0, 4), a(2, 0, 4)},
+			Threads: []core.ThreadSpec{{Name: "stable", Ops: []core.Op{{K: "S", Key: "k1", Val: []byte("v1")}, {K: "G", Key: "k1"}, {K: "U", Key: "k2", U64: 9}, {K: "GU", Key: "k2"}}},
+				{Name: "writer", Ops: []core.Op{a(3, 0, 4), {K: "D", Min: 1, Max: 1}}}}},
+		{Name: "Set(nil), Get || tail truncation and re-append || reader", Cfg: seg, Prop: "C08", Setup: []core.Op{a(1, 0, 4), a(2, 0, 4), {K: "S", Key: "k1", Val: []byte("old")}},
+			Threads: []core.ThreadSpec{{Name: "stable", Ops: []core.Op{{K: "S", Key: "k1", Nil: true}, {K: "G", Key: "k1"}}},
+				{Name: "writer", Ops: []core.Op{{K: "D", Min: 2, Max: 2}, a(2, 1, 12)}}, {Name: "reader", Ops: []core.Op{{K: "GL", Idx: 2}, {K: "LI"}}}}},
+	}
+}
+
 func c14Scenarios() []*core.Scenario {
 	seg := core.Config{SegSize: 128}
 	setup := []core.Op{a(1, 0, 4), a(2, 0, 4)}
@@ -85,9 +113,14 @@ func runSched(prop string) *ShardResult {
 		bound = 4
 	}
 	var scs []*core.Scenario
-	if prop == "C06" {
+	switch prop {
+	case "C06":
 		scs = c06Scenarios()
-	} else {
+	case "C13":
+		scs = c13Scenarios()
+	case "C08":
+		scs = c08Scenarios()
+	default:
 		scs = c14Scenarios()
 	}
 	res.Bounds["preemption_bounds"] = []int{bound - 1, bound}
